@@ -43,11 +43,16 @@ package queue_order
 //@   lemma [antisym] result == 0 - ite(weaker(rQueue, lQueue), 0 - 1, ite(weaker(lQueue, rQueue), 1, 0))
 //@ end
 
-// Last tie-break: never "equal". (metav1.Time.Before on the address of a struct field is outside
-// the engine's subset, so only the range of the result is proved; see report.)
+// Last tie-break: the older queue first; never "equal" (timestamps are opaque integers in the engine's model).
+// For EQUAL timestamps the result is rQueuePrioritized in both argument orders: as a `less` (result < 0) relation
+// this is still asymmetric (lemma), but cmp(l,r) == -cmp(r,l) does not hold and the Session's UID tie-break is
+// never reached while the proportion plugin is registered (see report).
+//@ define ctCmp(l *rs.QueueAttributes, r *rs.QueueAttributes) int = ite(l.CreationTimestamp < r.CreationTimestamp, 0 - 1, 1)
 //@ func prioritizeBasedOnCreationTime
 //@   props C16
 //@   requires lQueue != nil && rQueue != nil
 //@   pure
+//@   ensures [olderFirst] result == ctCmp(lQueue, rQueue)
 //@   ensures [neverEqual] result == 1 || result == 0 - 1
+//@   lemma [lessIsAsymmetric] !(result < 0 && ctCmp(rQueue, lQueue) < 0)
 //@ end
